@@ -1,0 +1,56 @@
+//go:build verif
+
+// Verification contracts for the skeleton processor's poll cycle (C33; comment-only; read by /verif/govc).
+// This file contains no executable code.
+
+package processor
+
+// filterRecords keeps exactly the records above the committed offset, in order. It filters in place
+// (filtered := records[:0] shares the backing array): gsrc[j] is the index in the ORIGINAL slice of result element j
+// (strictly increasing), gdst[i] the index in the result of original element i when it is kept.
+//@ func filterRecords
+//@   ghost gsrc (Array Int Int) = arbitraryIntMap()
+//@   ghost gdst (Array Int Int) = arbitraryIntMap()
+//@   at append#1 before set gsrc = store(gsrc, len(filtered), rangeindex)
+//@   at append#1 before set gdst = store(gdst, rangeindex, len(filtered))
+//@   ensures [C33.filter_keeps_exactly_uncommitted] forall j int :: 0 <= j && j < len(result) ==> 0 <= gsrc[j] && gsrc[j] < len(records) && result[j] == old(records[gsrc[j]]) && old(records[gsrc[j]]).Offset > offset && (j > 0 ==> gsrc[j-1] < gsrc[j])
+//@   ensures [C33.filter_drops_nothing_uncommitted] forall i int :: 0 <= i && i < len(records) && old(records[i]).Offset > offset ==> 0 <= gdst[i] && gdst[i] < len(result) && gsrc[gdst[i]] == i
+//@   loop 1 invariant -1 <= rangeindex && rangeindex < len(records) && len(filtered) <= rangeindex + 1 && base(filtered) == base(records) && off(filtered) == off(records) && cap(filtered) == cap(records) && len(records) <= cap(records)
+//@   loop 1 invariant [C33.filter_unread_tail_untouched] forall i int :: rangeindex < i && i < len(records) ==> records[i] == old(records[i])
+//@   loop 1 invariant [C33.filter_keeps_exactly_uncommitted.inv] forall j int :: 0 <= j && j < len(filtered) ==> 0 <= gsrc[j] && gsrc[j] <= rangeindex && filtered[j] == old(records[gsrc[j]]) && old(records[gsrc[j]]).Offset > offset && (j > 0 ==> gsrc[j-1] < gsrc[j])
+//@   loop 1 invariant [C33.filter_drops_nothing_uncommitted.inv] forall i int :: 0 <= i && i <= rangeindex && old(records[i]).Offset > offset ==> 0 <= gdst[i] && gdst[i] < len(filtered) && gsrc[gdst[i]] == i
+
+// mapBatches: one sink record per decoded batch entry, same order, same topic / partition / offset / payload.
+//@ func mapBatches
+//@   ensures [C33.map_one_to_one] len(result) == len(batches) && (forall i int :: 0 <= i && i < len(batches) ==> result[i].Topic == batches[i].Topic && result[i].Partition == batches[i].Partition && result[i].Offset == batches[i].Offset && sameSlice(result[i].Payload, batches[i].Payload))
+//@   loop 1 invariant -1 <= rangeindex && rangeindex < len(batches) && len(records) == rangeindex + 1 && base(records) != base(batches) && (forall i int :: 0 <= i && i <= rangeindex ==> records[i].Topic == batches[i].Topic && records[i].Partition == batches[i].Partition && records[i].Offset == batches[i].Offset && sameSlice(records[i].Payload, batches[i].Payload))
+
+//@ func (p *Processor) startLeaseRenewal
+//@   nullable p
+//@   modular
+
+// The poll cycle (same clauses as the SQL and iceberg processors). gstage: how far the current segment got
+// (LoadOffset 1, Decode 2, Write 4; negative = that step failed).
+//@ func (p *Processor) Run
+//@   at ListCompleted#1 after start
+//@   ghost gstage int = 0
+//@   ghost gcommitted int64 = 0
+//@   ghost gdecoded []decoder.Batch = nil
+//@   ghost gmapped []sink.Record = nil
+//@   ghost gfiltered []sink.Record = nil
+//@   ghost gwritten []sink.Record = nil
+//@   at LoadOffset#1 after set gstage = ite(isNilIface(ret1), 1, 0 - 1)
+//@   at LoadOffset#1 after set gcommitted = ret0.Offset
+//@   at Decode#1 before assert [C33.decodes_the_listed_segment] arg1 == seg.SegmentKey && arg2 == seg.IndexKey
+//@   at Decode#1 after set gstage = ite(isNilIface(ret1), 2, 0 - 2)
+//@   at Decode#1 after set gdecoded = ret0
+//@   at mapBatches#1 before assert [C33.maps_what_was_decoded] sameSlice(arg0, gdecoded)
+//@   at mapBatches#1 after set gmapped = ret0
+//@   at filterRecords#1 before assert [C33.filter_bound_is_loaded_checkpoint] sameSlice(arg0, gmapped) && arg1 == gcommitted
+//@   at filterRecords#1 after set gfiltered = ret0
+//@   at Write#1 before assert [C33.writes_everything_above_the_checkpoint] sameSlice(arg1, gfiltered) && len(arg1) > 0
+//@   at Write#1 before set gwritten = arg1
+//@   at Write#1 after set gstage = ite(isNilIface(ret0), 4, 0 - 4)
+//@   at CommitOffset#1 before assert [C33.commit_only_after_successful_write] gstage == 4
+//@   at CommitOffset#1 before assert [C33.commit_is_last_written_offset] len(gwritten) > 0 && arg1.Offset == gwritten[len(gwritten)-1].Offset && arg1.Topic == gwritten[len(gwritten)-1].Topic && arg1.Partition == gwritten[len(gwritten)-1].Partition
+//@   at loopstep#3 assert [C33.no_later_segment_after_a_failed_step] gstage >= 0
